@@ -179,7 +179,7 @@ def run(chk):
     chk.rule = ("op cells: VoronoiIntegrator::build on the input families of DESIGN §3.5 (uniform, cluster, lattice, lattice on walls, on boundary, collinear, coplanar, "
                 "co-spherical, n=1, n=2; 1D/2D/3D; periodic/reflective; 6 box shapes); every constructed cell is compared with the exact rational cell "
                 "(volume, centroid, safety radius, faces keyed by neighbour+shift with area/centroid, vertex set by Hausdorff distance); non-trivial = cell with >= 1 neighbour face; distinct by (record, cell)")
-    chk.lean(['MVoro.Props.C01'], [], [])
+    chk.lean(['MVoro.Props.C01'], ['MVoro.Obl.BuildStep', 'MVoro.Obl.Integrals'], ['BuildStep', 'Integrals', 'Geom'])
     got = run_cells_op(chk)
     if got is None:
         return
